@@ -12,13 +12,13 @@ var confirmedCounts = map[string]map[string][2]int{ // rule -> prop -> {default,
 	"R3":  {"C11": {24, 24}},
 	"R4":  {"C03": {11, 11}, "C11": {11, 11}},
 	"R5":  {"C11": {9, 11}},
-	"R6":  {"C04": {9, 9}, "C16": {0, 30}, "C17": {28, 28}, "C18": {19, 44}, "C19": {19, 74}, "C20": {9, 9}},
+	"R6":  {"C04": {9, 9}, "C16": {0, 30}, "C17": {26, 26}, "C18": {17, 42}, "C19": {17, 72}, "C20": {9, 9}},
 	"R7":  {"C17": {26, 29}, "C19": {22, 25}},
 	"R8":  {"C18": {19, 23}},
 	"R9":  {"C20": {15, 15}},
 	"R10": {"C02": {62, 71}, "C05": {62, 71}, "C10": {62, 71}},
 	"R11": {"C07": {10, 10}, "C08": {10, 10}},
-	"R12": {"C06": {11, 11}, "C07": {16, 17}, "C12": {5, 5}, "C13": {5, 5}},
+	"R12": {"C06": {16, 16}, "C07": {25, 27}, "C12": {10, 10}, "C13": {10, 10}},
 	"R13": {"C01": {5, 5}, "C03": {5, 5}, "C06": {9, 9}, "C09": {9, 9}},
 	"R14": {"C01": {28, 28}, "C04": {28, 28}, "C09": {28, 28}},
 	"R15": {"C03": {4, 4}, "C04": {8, 8}, "C05": {2, 2}},
@@ -28,8 +28,8 @@ var confirmedCounts = map[string]map[string][2]int{ // rule -> prop -> {default,
 	"R19": {"C02": {7, 7}},
 	"R20": {"C03": {2, 2}},
 	"R21": {"C16": {0, 4}},
-	"R22": {"C16": {0, 18}},
-	"R23": {"C14": {0, 16}},
+	"R22": {"C16": {0, 19}},
+	"R23": {"C14": {0, 20}, "C16": {0, 20}},
 	"R24": {"C05": {4, 4}, "C06": {5, 5}, "C13": {2, 2}, "C15": {1, 3}},
 	"R25": {"C05": {10, 10}, "C06": {18, 18}, "C09": {17, 17}, "C13": {9, 9}, "C15": {1, 5}},
 	"R26": {"C02": {1, 1}, "C03": {4, 4}, "C04": {3, 3}, "C05": {5, 5}, "C06": {4, 4}, "C13": {2, 2}},
